@@ -86,7 +86,15 @@ pub fn gen_arch_code(rng: &mut Rng, arch: &str, size: usize) -> Vec<u8> {
                 _ => {
                     // riscv
                     let j = i & !1;
-                    match rng.below(3) {
+                    match rng.below(4) {
+                        3 => {
+                            // words that look like the filter's own escaped forms (`auipc x2` / low 14 bits 0x3117 with
+                            // high bits set, next word with bit 11 set): the decoder's special branches
+                            v[j] = 0x17;
+                            v[j + 1] = (v[j + 1] & 0xC0) | *rng.pick(&[0x31u8, 0x01, 0x11, 0x21, 0x31]);
+                            if rng.chance(2, 3) { v[j + 3] |= *rng.pick(&[0x08u8, 0x20, 0x80, 0xF8]); }
+                            if rng.chance(1, 2) { v[j + 5] |= 0x08; }
+                        }
                         0 => {
                             v[j] = 0xEF;
                             v[j + 1] = (v[j + 1] & 0xF0) | *rng.pick(&[0x00u8, 0x02]);
